@@ -252,6 +252,13 @@ def run(ctx: Ctx) -> Outcome:
         for rname, root in (("Parent", mod.Parent), ("dict[str,Parent]", dict[str, mod.Parent]), ("Child", mod.Child)):
             events.append(observe(root, None, [("memoised", root)]))
             meta.append({"late": shape, "root": rname})
+    # passive source: every root the repository's own test suite hands to static_order (recorded by a pytest plugin)
+    from .. import suite
+    rec = suite.record()
+    for g in rec["graph"]:
+        events.append(g["event"])
+        meta.append({"suite_root": g["root"]})
+    nsuite = len(rec["graph"])
     slim = [{kk: e[kk] for kk in ("nodes", "root", "rootu", "members", "salias", "equiv", "raised")} for e in events]
     tres, rejects = tlc.validate_trace("Graph_Trace", "Graph_Trace.cfg", slim, timeout=7200)
     viol = []
@@ -259,7 +266,7 @@ def run(ctx: Ctx) -> Outcome:
         e, m = events[r["rej"] - 1], meta[r["rej"] - 1]
         kinds = sorted({ft[0] for fs in m.get("topo", []) for ft in fs})
         viol.append(Violation(clause="Graph." + r["clause"], case=m,
-                              fields={"raised": e["raised"], "source": "topology" if "topo" in m else "late_definition" if "late" in m else "universe",
+                              fields={"raised": e["raised"], "source": "topology" if "topo" in m else "late_definition" if "late" in m else "suite" if "suite_root" in m else "universe",
                                       "kinds": kinds, "failed_variants": [x["how"] for x in e["equiv"] if not x["same"]]},
                               msg=f"{json.dumps(m)[:200]} nodes={json.dumps(e['nodes'])[:300]} equiv={e['equiv']}"))
     # impl drift: node counts of the model vs the real graph (spec -> code)
@@ -272,10 +279,12 @@ def run(ctx: Ctx) -> Outcome:
     cov = {"states": states, "transitions": trans, "exhaustive": True,
            "traces_validated_against_impl": len(events), "evaluations": len(events),
            "distinct_nontrivial": len(nontrivial), "topology_cases": len(cases), "universe_roots": len(types),
+           "suite_roots": nsuite, "suite_summary": rec.get("suite_summary", ""),
            "rule": "model: every topology over 2 classes x <=2 fields x edge kinds x every root (thorough: all 5 kinds, plus 3 classes x 1 "
                    "field), BFS + cut rule, invariants for every linear extension; real: TLC-emitted (topology, root) cases materialised as "
                    "dataclass/NamedTuple/slots/plain classes in one or two modules, plus every type of the value universe, plus classes first walked "
-                   "before a field type was defined and walked again afterwards through other roots, static_order() "
+                   "before a field type was defined and walked again afterwards through other roots, plus every root the repository's own test "
+                   "suite passes to static_order (recorded passively), static_order() "
                    "projected to opaque ids with stdlib-derived member facts; non-trivial = a deferred node occurs",
            "samples": [slim[0], slim[len(slim) // 2]]}
     return Outcome(level="model_checking", coverage=cov, violations=viol, impl_drift=drift,
@@ -291,7 +300,7 @@ def replay(ctx: Ctx, rep: dict) -> Outcome:
         env.build(None, "m1")
         ann = env.annotation(field_type(m["root"]))
         variants = root_variants(env, ann, env.modules["m1"], 1)
-    elif "late" in m:
+    elif "late" in m or "suite_root" in m:
         return run(ctx)
     else:
         defs, types, _ = vs.universe("quick")
